@@ -134,14 +134,14 @@ def preset(pid, tier):
                   NextKinds=ALL_NEXT if pid == 'C05' else (S(['BeginBlock', 'Redeliver']) if pid == 'C04' else S(['BeginBlock'])))
         simc = did(Accts=S(['a1', 'a2', 'a3']), Dids=S(['d1', 'd2', 'dc']), ViewDids=S(['d1', 'd2', 'dc']),
                    DocNames=S(['A1', 'A2', 'B12', 'C1', 'D2', 'E1', 'F12', 'R1', 'U1', 'X1', 'N0', 'EMP']), ForeignVm=True, NearProofs=True, MaxDeliver=30, MaxHeight=6, NextKinds=ALL_NEXT_R, FailKeep=25)
-        tourc = did(DocNames=S(['A1', 'A2', 'F12', 'U1']) if q else S(['A1', 'A2', 'C1', 'D2', 'F12', 'U1']), Keys=S(['k1', 'k2']) if q else S(['k1', 'k2', 'k3']), MaxDeliver=2 if q else 3, MaxHeight=2)
+        tourc = did(DocNames=S(['A1', 'A2', 'F12', 'U1']), Keys=S(['k1', 'k2']) if q else S(['k1', 'k2', 'k3']), MaxDeliver=2 if q else 3, MaxHeight=2)     # thorough: one delivery deeper, a third key
         if pid == 'C11':
             # the read operation is also asked for dp, a valid identifier that is a proper prefix of d1's and never registered
             simc = dict(simc, ViewDids=simc['ViewDids'] | S(['dp']))
             tourc = dict(tourc, ViewDids=tourc['ViewDids'] | S(['dp']))
             # documents whose method ids carry the twin did's prefix: fired at every toured state, with the DID field naming the twin
             tourc = dict(tourc, DocNames=tourc['DocNames'] | S(['X1']))
-        sims = [sim(simc, 150 if q else 3000, 50)]
+        sims = [sim(simc, 150 if q else 1500, 50)]
         if pid in ('C03', 'C04'):
             # few document shapes, so that rich documents (which name the OTHER did as controller) are stored often, and cross-entry proofs (DidCross) meet
             # registry entries whose sequence numbers differ
